@@ -319,10 +319,17 @@ pub fn read_replay(path: &str) -> Replay {
     eprintln!("cannot read replay {}: {e}", p.display());
     std::process::exit(2)
   });
-  serde_json::from_str(&s).unwrap_or_else(|e| {
+  let r: Replay = serde_json::from_str(&s).unwrap_or_else(|e| {
     eprintln!("bad replay {}: {e}", p.display());
     std::process::exit(2)
-  })
+  });
+  // the crash / abort guards report a fault during the replay against this case
+  let cc = (r.property.clone(), r.engine.clone(), r.scenario.to_string());
+  if let Ok(mut g) = ANY_CASE.try_lock() {
+    *g = Some(cc.clone());
+  }
+  CURRENT_CASE.with(|c| *c.borrow_mut() = Some(cc));
+  r
 }
 
 // ---------------------------------------------------------------------------------------------
